@@ -9,13 +9,15 @@ WT="${1:?worktree}"
 ok=0; bad=0
 for patch in seeded/benign/*${2:-}*.diff; do
   name=$(basename "$patch" .diff)
-  git -C "$WT" checkout -q -- . ; git -C "$WT" clean -qfd -e Cargo.lock -e target >/dev/null 2>&1
-  if ! git -C "$WT" apply "$PWD/$patch" 2>/dev/null && ! git -C "$WT" apply --3way "$PWD/$patch" >/dev/null 2>&1; then echo "SKIP   $name: patch does not apply"; continue; fi
+  if [ -n "${BENIGN_SKIP:-}" ] && echo "$name" | grep -Eq "$BENIGN_SKIP"; then continue; fi
+  git -C "$WT" reset -q --hard HEAD ; git -C "$WT" clean -qfd -e Cargo.lock -e target >/dev/null 2>&1
+  if ! git -C "$WT" apply "$PWD/$patch" 2>/dev/null && ! git -C "$WT" apply --3way "$PWD/$patch" >/dev/null 2>&1; then git -C "$WT" reset -q --hard HEAD; echo "SKIP   $name: patch does not apply to this tree (written against an earlier one)"; continue; fi
+  git -C "$WT" reset -q   # a three-way application stages what it merged: keep the working tree, drop the index
   for prop in ${BENIGN_PROPS:-C12 C13 C17 C18 C20}; do
     out=$(VERIF_REPO="$WT" ./check "$prop" quick --no-evidence 2>&1); code=$?
     if [ $code -eq 0 ] && ! echo "$out" | grep -q "^VIOLATION"; then ok=$((ok+1)); echo "SILENT $name $prop"; else bad=$((bad+1)); echo "ALARM  $name $prop exit=$code: $(echo "$out" | grep -m2 -E 'VIOLATION|HARNESS|rule=|error' | tr '\n' ' ' | cut -c1-300)"; fi
   done
 done
-git -C "$WT" checkout -q -- .
+git -C "$WT" reset -q --hard HEAD
 echo "benign runs silent: $ok, alarms or errors: $bad"
 [ $bad -eq 0 ]
